@@ -2,15 +2,15 @@
 # Keeps one confirmed wave-2 seeded change: tools/keep_seeded2.sh <ID> <A|B> <property> "<needs>" "<confirm line>" "<detected by>"
 set -eu
 ID="$1"; V="$2"; PROP="$3"; NEEDS="$4"; CONFIRM="$5"; DET="$6"
-SRC=/tmp/sw2-$ID/SEEDED/$V; DST="$(cd "$(dirname "$0")/.." && pwd)/seeded/S2-$ID-$V"
+W=${WAVE:-sw2}; N=${W#sw}; SRC=/tmp/$W-$ID/SEEDED/$V; DST="$(cd "$(dirname "$0")/.." && pwd)/seeded/S$N-$ID-$V"
 rm -rf "$DST"; mkdir -p "$DST"
 cp "$SRC/patch.diff" "$DST/"; cp -r "$SRC/demo" "$DST/demo"; cp "$SRC/notes.md" "$DST/" 2>/dev/null || true
 rm -rf "$DST/demo/target" "$DST/demo/Cargo.lock"
-python3 - "$DST/meta.json" "S2-$ID-$V" "$PROP" "$NEEDS" "$CONFIRM" "$DET" <<'PY'
+python3 - "$DST/meta.json" "S$N-$ID-$V" "$PROP" "$NEEDS" "$CONFIRM" "$DET" <<'PY'
 import json,sys
 path,i,prop,needs,confirm,det=sys.argv[1:7]
 json.dump({"id":i,"breaks_property":prop,
- "author":"independent sub-agent (wave 2) that saw only the property text and its own scratch worktree of /repo",
+ "author":"independent sub-agent (wave "+i[1]+") that saw only the property text and its own scratch worktree of /repo",
  "needs_to_manifest":needs,
  "confirmed_by_me":{"command":"tools/confirm_seeded2.sh (scratch worktree: git apply --check; demonstration without the patch; demonstration with the patch; cargo test --workspace --no-fail-fast --offline with the patch)","result":confirm},
  "detected_by":det,
